@@ -284,8 +284,13 @@ let handle kind c =
           if has_suffix n ".json" && not (List.mem_assoc n !prev_local) && not (List.mem n init_local_names) then begin
             let w = if has_prefix n "local." then String.sub n 6 (String.length n - 11)
               else String.sub n 0 (String.length n - 5) in
+            (* local reports and markers are permanent; a ready report W.json of before the runs is a
+               witness as long as it is there or its marker is (a 4xx answer removes it without a trace:
+               a later report for W is then the first one the server can accept) *)
+            let ready_still = List.mem (w ^ ".json") init_local_names
+                              && (List.mem_assoc (w ^ ".json") !prev_local || List.mem_assoc (w ^ ".json") !prev_up) in
             if List.mem (w ^ ".json") init_up_names || List.mem ("local." ^ w ^ ".json") init_local_names
-               || List.mem (w ^ ".json") init_local_names then
+               || ready_still then
               once "second_report" (Printf.sprintf "step %d: %s created although week %s had a report before the runs" i n w) prop07
           end) loc;
       (* C08 *)
